@@ -10,7 +10,9 @@ import (
 	"strings"
 	"sync"
 	"testing"
+	"time"
 
+	"github.com/vulcand/oxy/v2/internal/holsterv4/clock"
 	"github.com/vulcand/oxy/v2/roundrobin"
 	"github.com/vulcand/oxy/v2/verifharness/vstat"
 	"pgregory.net/rapid"
@@ -239,6 +241,13 @@ func checkWindows(t *rapid.T, seq []string, model []srv, g, W int, ctx string) {
 	}
 }
 
+// healthyMeter: always ready, always the same rating.
+type healthyMeter struct{}
+
+func (healthyMeter) Rating() float64           { return 0 }
+func (healthyMeter) Record(int, time.Duration) {}
+func (healthyMeter) IsReady() bool             { return true }
+
 // lightWriter is a reusable minimal ResponseWriter (a recorder per selection dominates the run
 // time of rotations with hundreds of thousands of selections).
 type lightWriter struct {
@@ -290,6 +299,35 @@ func TestC01_Windows(t *testing.T) {
 		}
 		rr, model, log, hist := buildPool(t, next, maxWeight(), opts...)
 		viaHTTP := rapid.Bool().Draw(t, "viaServeHTTP") || badCookie != ""
+		// a fifth of the pools sit behind the stock rebalancer with healthy, equally rated servers:
+		// it has no reason to touch any weight, the pool "is not being changed", and requests are
+		// selected through it while time passes (its periodic weight review runs after every request)
+		var front http.Handler = rr
+		rot, rg := 0, 0
+		for _, s := range model {
+			rot += s.w
+			rg = gcd(rg, s.w)
+		}
+		if rg > 0 {
+			rot /= rg
+		}
+		viaRB := badCookie == "" && len(model) <= 20 && rot <= 20000 && rapid.IntRange(0, 4).Draw(t, "behindRebalancer") == 0
+		if viaRB {
+			clock.Freeze(time.Date(2026, 4, 1, 0, 0, 0, 0, time.UTC))
+			defer clock.Unfreeze()
+			rb, err := roundrobin.NewRebalancer(rr, roundrobin.RebalancerBackoff(time.Second),
+				roundrobin.RebalancerMeter(func() (roundrobin.Meter, error) { return healthyMeter{}, nil }))
+			if err != nil {
+				t.Fatalf("NewRebalancer: %v", err)
+			}
+			for _, s := range model {
+				if err := rb.UpsertServer(mustURL(s.name), roundrobin.Weight(s.w)); err != nil {
+					t.Fatalf("rebalancer upsert: %v", err)
+				}
+			}
+			front, viaHTTP = rb, true
+			log = append(log, "behind-rebalancer")
+		}
 		sum, g := 0, 0
 		for _, s := range model {
 			sum += s.w
@@ -304,7 +342,10 @@ func TestC01_Windows(t *testing.T) {
 			if viaHTTP {
 				n := nSeen
 				lw.reset()
-				rr.ServeHTTP(lw, req) // the balancer works on a shallow copy of the request
+				if viaRB {
+					clock.Advance(400 * time.Millisecond)
+				}
+				front.ServeHTTP(lw, req) // the balancer works on a shallow copy of the request
 				if nSeen == n {
 					if lw.status() < 500 {
 						t.Fatalf("no server selected but status %d (want an error status)", lw.status())
@@ -445,6 +486,9 @@ func TestC01_Windows(t *testing.T) {
 		}
 		if refusedCalls > 0 {
 			cl = append(cl, "refused-admin-calls-inside-the-window")
+		}
+		if viaRB {
+			cl = append(cl, "selected-through-an-idle-rebalancer")
 		}
 		if badCookie != "" {
 			cl = append(cl, "sticky-on-with-unusable-cookie")
